@@ -259,8 +259,19 @@ def confirm_failures(report, native_confirm=None):
     returns (reproduced: bool, replay_obj) or None."""
     pend = getattr(report, "pending_kani", [])
     report.pending_kani = []
+    replayed = 0
+    max_replays = int(os.environ.get("VERIF_MAX_PLAYBACKS", "5"))
     for crate, h, r in pend:
         t0 = time.time()
+        if h.expect != "panic" and replayed >= max_replays:
+            if report.violations:
+                report.notes.append("harness %s also failed (%s); not replayed natively (replay budget), %d counterexamples of this run already reproduced"
+                                    % (h.name, "; ".join(d for d, _ in r.failed[:2]), len(report.violations)))
+            else:
+                report.inconcl("harness %s failed but was not replayed (replay budget exhausted without a reproducing counterexample)" % h.name)
+            continue
+        if h.expect != "panic":
+            replayed += 1
         if h.expect == "panic":
             res = native_confirm(crate, h, r) if native_confirm else None
             if res is None:
